@@ -318,6 +318,21 @@ def run(ck, prog, ctx):
                                 tt = [tg for v, tg in x.targets if v == 1] or ([x.otherwise] if vals == [0] else [])
                                 if tt and tf.edge_dominates((sbi, tt[0]), bi):
                                     guard = ct
+            if guard is None:
+                # unconditional form: `*term.obsolete_mut() = obsolete == Some("true")`
+                for pos_, st_ in tf.stmts():
+                    if st_.k == "assign" and "*" in st_.place.fields() and st_.place.local == t.dest.local and st_.ops:
+                        for at_ in pvn.of_operand(tf, st_.ops[0]):
+                            if at_[0] == "call" and at_[3] == tf.id and at_[1].endswith("PartialEq>::eq") or (at_[0] == "call" and at_[3] == tf.id and at_[1].rsplit("::", 1)[-1] == "eq"):
+                                ct2 = tf.blocks[at_[4]].term
+                                roots2, lits2 = set(), set()
+                                for a2 in ct2.args:
+                                    roots2 |= user_root_locals(tf, pvn, a2, stop=allk)
+                                    for x2 in pv.of_operand(tf, a2):
+                                        if x2[0] == "const" and str(x2[2]).startswith('"'):
+                                            lits2.add(str(x2[2]).strip('"'))
+                                if key_of(roots2) == ["is_obsolete"] and "true" in lits2:
+                                    guard = ct2
             ck.ob("ROLE", "obo/obsolete", guard is not None, "the obsolete flag is set %s" % ("iff the `is_obsolete` value equals \"true\"" if guard is not None else "without a comparison of the `is_obsolete` value with \"true\""), where=tf.where(t.line))
         rep = [(bi, t) for bi, t in tf.calls() if (t.callee.res or "").endswith("::replacement_mut")]
         for bi, t in rep:
@@ -441,7 +456,10 @@ def run(ck, prog, ctx):
             a1 = pv.of_operand(ac, t.args[1], (("f", "1", "tuple"),))
             child_ok = params_of(a0, ac.id) == {3}
             parent_ok = any(a[0] == "call" and a[1].endswith("strip_prefix") for a in a1) and 3 not in params_of(a1, ac.id)
-            lits = {str_const(x) for cbi, ct in ac.calls() if ct.callee.method == "strip_prefix" for x in ct.args if str_const(x)}
+            lits = {const_str_of(fb_, pvn, x) for fb_ in prog.family(ac) for cbi, ct in fb_.calls() if ct.callee.method == "strip_prefix" for x in ct.args[1:]} - {None}
+            if not lits or not any(a[0] == "call" and a[1].endswith("strip_prefix") for a in a1):
+                ck.undecided("ROLE", "obo/is_a", "the parent id of a connection is not recognisably the text after a strip_prefix literal", where=ac.where(t.line))
+                continue
             ck.ob("ROLE", "obo/is_a", child_ok and parent_ok and lits == {"is_a: "}, "a connection is (this term%s, id parsed after %s%s)" % ("" if child_ok else "?", sorted(lits), "" if parent_ok else "?"), where=ac.where(t.line))
     ro = prog.body(O + "read_obo_file")
     if ro is not None:
